@@ -767,10 +767,26 @@ def spm_case(draw):
         raw = [draw(gen.matrix(n, k, kind='grid', kmax=16)) if k else [[] for _ in range(n)]
                for n, k in zip(runs, ks)]
     p = draw(st.integers(1, 5))
-    t = sum(runs)
-    data = draw(gen.matrix(t, p))
+    nscans_dtype = draw(st.sampled_from(['int64', 'int64', 'uint8', 'uint16', 'int32']))
+    if draw(st.integers(0, 5)) == 0:
+        # realistic session lengths (a real SPM.mat read by loadmat delivers the scan counts in
+        # the narrowest integer type that holds them, e.g. uint8 for 3 x 120 scans); the data are
+        # produced from a small generated pattern so that the case stays compact
+        n_runs = draw(st.integers(2, 3))
+        runs = [draw(st.integers(90, 130)) for _ in range(n_runs)]
+        basis, raw = 'dct', None
+        ks = [draw(st.integers(1, 3)) for _ in runs]
+        pat = [draw(st.integers(1, 40)), draw(st.integers(1, 40)), draw(st.integers(2, 23))]
+        t = sum(runs)
+        data = {'pattern': pat, 'shape': [t, p]}
+    else:
+        t = sum(runs)
+        data = draw(gen.matrix(t, p))
     q = draw(st.integers(1, 3))
-    return dict(runs=runs, ks=ks, basis=basis, raw=raw, data=data,
+    if isinstance(data, dict):      # long sessions: filter only (keeps the case small)
+        return dict(runs=runs, ks=ks, basis=basis, raw=raw, data=data, nscans_dtype=nscans_dtype,
+                    design=[], weight='identity', wdiag=[], residuals=False)
+    return dict(runs=runs, ks=ks, basis=basis, raw=raw, data=data, nscans_dtype=nscans_dtype,
                 design=draw(gen.matrix(t, q, kind='grid', kmax=8)),
                 weight=draw(st.sampled_from(['identity', 'diag'])),
                 wdiag=draw(st.lists(st.integers(1, 8).map(lambda k: k / 4.0), min_size=t,
@@ -807,13 +823,23 @@ def ref_filter(data, runs, bases):
     return out
 
 
+def spm_data(case):
+    d = case['data']
+    if isinstance(d, dict):
+        a, b, m = d['pattern']
+        t, p = d['shape']
+        return np.array([[((i * a + j * b + (i * i) % 7) % m) / 4.0 - 1.0 for j in range(p)]
+                         for i in range(t)], dtype=float)
+    return np.array(d, dtype=float)
+
+
 def check_spm(case):
     runs = [int(n) for n in case['runs']]
     bases = _bases(case)
-    data = np.array(case['data'], dtype=float)
+    data = spm_data(case)
     stub = NitoolsStub(data)
     spm = lib(SpmGlm, '/proj/glm_firstlevel', stub, on_error='violation', sig='spm:init:raises')
-    spm.nscans = np.array(runs)
+    spm.nscans = np.array(runs, dtype=case.get('nscans_dtype', 'int64'))
     spm.nruns = len(runs)
     spm.filter_matrices = [b.copy() for b in bases]
     before = data.copy()
@@ -881,6 +907,7 @@ def classify_spm(case):
     labels = ['n_runs=%d' % len(runs), 'basis:' + case['basis'],
               'equal-runs' if len(set(runs)) == 1 else 'unequal-runs',
               'some-empty-basis' if 0 in ks else 'all-bases>0',
+              'nscans:' + case.get('nscans_dtype', 'int64'), 'long-runs' if sum(runs) > 255 else 'short-runs',
               'residuals' if case['residuals'] else 'filter-only']
     return labels, len(runs) >= 2 and (len(set(runs)) > 1 or len(set(ks)) > 1 or case['basis'] == 'qr')
 
